@@ -270,6 +270,7 @@ func (jenny RawTypes) defaultsForStructRec(context languages.Context, objectRef 
 			(field.Required && field.Type.IsRef() && resolvedFieldType.IsStruct()) ||
 			(field.Required && field.Type.IsArray()) ||
 			(field.Required && field.Type.IsMap()) ||
+			(field.Required && field.Type.IsRef() && !field.Type.Nullable && resolvedFieldType.IsAnyOf(ast.KindArray, ast.KindMap) && !context.ResolveNullableAlias(field.Type).Nullable) ||
 			field.Type.IsConcreteScalar() ||
 			field.Type.IsConstantRef()
 		if !needsExplicitDefault {
@@ -368,6 +369,9 @@ func (jenny RawTypes) defaultsForStructRec(context languages.Context, objectRef 
 				// leave the loop over the fields)
 				defaultValue = formatScalar(constRef.ReferenceValue)
 			}
+		} else if field.Type.IsRef() && resolvedFieldType.IsAnyOf(ast.KindArray, ast.KindMap) {
+			// a named list or map: `Labels{}`
+			defaultValue = jenny.typeFormatter.formatRef(field.Type, false) + "{}"
 		} else if field.Type.IsArray() {
 			defaultValue = "[]" + jenny.typeFormatter.formatType(field.Type.Array.ValueType) + "{}"
 		} else if field.Type.IsMap() {
